@@ -150,3 +150,18 @@ MC_BY_PROP = {
 }
 for p, (q, t) in MC_BY_PROP.items():
     PLANS[p]["mc"] = {"quick": q, "thorough": q + t}
+
+# ---- direction 1 for the CacheD-level properties: TLC simulates behaviours of a litmus instance, the harness replays each schedule
+def b1(cfg, module="MC_inst"):
+    return {"quick": [{"kind": "cached", "module": module, "cfg": cfg, "simulate": [150, 400], "workers": 1}],
+            "thorough": [{"kind": "cached", "module": module, "cfg": cfg, "simulate": [3000, 400], "workers": 1, "timeout": 1500}]}
+
+B1_BY_PROP = {
+    "C01": b1("MC_evict_export"), "C06": b1("MC_evict_export"),
+    "C05": b1("MC_litmus1_export", "MC_litmus1"), "C07": b1("MC_litmus1_export", "MC_litmus1"), "C11": b1("MC_litmus1_export", "MC_litmus1"),
+    "C02": b1("MC_reads_export"), "C04": b1("MC_reads_export"), "C15": b1("MC_reads_export"), "C16": b1("MC_reads_export"),
+    "C03": b1("MC_ttl_export"), "C08": b1("MC_ttl_export"), "C09": b1("MC_ttl_export"), "C10": b1("MC_ttl_export"),
+    "C13": b1("MC_shut_export"), "C17": b1("MC_shut_export"),
+}
+for p, b in B1_BY_PROP.items():
+    PLANS[p]["b1"] = b
